@@ -791,7 +791,7 @@ def check_C08(ctx):
     rep.rule("CAP", "copying loaders allocate file_len + pad_align_to(file_len, K), K a positive power of two equal to the allocation alignment")
     rep.rule("SHAPE", "MemCase(structure, backend) in this order, no Drop impl, Send/Sync bounded by S, backends own their memory through a pointer, heap region alignment 64, no method gives away the structure or the backend")
     rep.rule("FLAGS", "every Flags constant is translated to the mmap_rs flag of the same name")
-    rep.rule("P-ERR", "results in deser/mod.rs and ser/mod.rs are propagated")
+    rep.rule("P-ERR", "results in the loaders and store are propagated")
     rep.rule("ERR-DROP", "MIR after drop elaboration: no Result<_, crate error> produced by a call or assignment reaches the Drop of its local (scope end or overwrite) on a normal path without having been moved, matched or borrowed")
     nload = 0
     for config, floor in (("default", 3), ("nommap", 1)):
@@ -811,8 +811,10 @@ def check_C08(ctx):
             ok = rules_loader.rule_flags(u, sub)
             if not ok:
                 sub.add("ANCHOR", "mmap_flags", "cannot locate the flag translation function")
-        rules_err.rule_PERR(u, sub, ("epserde/src/deser/mod.rs", "epserde/src/ser/mod.rs", "epserde/src/deser/mem_case.rs"))
-        rules_err.rule_err_drop(u, sub, ("epserde/src/deser/mod.rs", "epserde/src/ser/mod.rs", "epserde/src/deser/mem_case.rs"))
+        # the file-level entry points only (check_header and the (de)serializers proper belong to C10/C11/C13/C14)
+        not_loader = lambda b: (b.d.get("name") or "").split("::")[-1] not in ("load_full", "load_mem", "load_mmap", "mmap", "store", "mmap_flags", "encase", "as_ref") and "closure" not in b.id
+        rules_err.rule_PERR(u, sub, ("epserde/src/deser/mod.rs", "epserde/src/ser/mod.rs", "epserde/src/deser/mem_case.rs"), exclude_fn=not_loader)
+        rules_err.rule_err_drop(u, sub, ("epserde/src/deser/mod.rs", "epserde/src/ser/mod.rs", "epserde/src/deser/mem_case.rs"), exclude_fn=not_loader)
         sub.floor("loaders analysed [%s]" % config, n, floor)
         sub.floor("loader paths on which the zero-fill obligation was decided [%s]" % config, sub.counters.get("fill_paths", 0), 4 if config == "default" else 2)
         for f in sub.findings:
